@@ -57,6 +57,9 @@ func c14Alphabet() []bt.Op {
 		put(tblT, "a\xffb", "f"),
 		put(tblT, "ab", "g"),
 		put(tblT, "\xff", "f"),
+		// other kinds of write naming a family: rejected as a whole once that family has been dropped
+		{Kind: "MutateRow", Table: tblT, Key: []byte("a"), Muts: []bt.Mut{mset("g", "c2", 2000, "w"), mdelfam("f")}},
+		{Kind: "MutateRow", Table: tblT, Key: []byte("a"), Muts: []bt.Mut{mset("f", "c2", 2000, "w"), mdelcol("g", "c")}},
 		{Kind: "DropRowRange", Table: tblT, Prefix: []byte("a")},
 		{Kind: "DropRowRange", Table: tblT, Prefix: []byte("a\xff")},
 		{Kind: "DropRowRange", Table: tblT, Prefix: []byte("ab")},
@@ -109,7 +112,7 @@ func init() {
 			if tier == "thorough" {
 				return 20 * time.Minute
 			}
-			return 100 * time.Second
+			return 180 * time.Second
 		},
 	})
 }
